@@ -9,7 +9,7 @@ import Gomacro.Drv.Sem
 import Gomacro.Drv.C15
 import Gomacro.Drv.C03
 import Gomacro.Drv.C04
-import Gomacro.Drv.C14
+import Gomacro.Drv.C06
 /-! JSON-lines driver: one request object per line in, one reply per line out.
 Unknown ops are `bad-op`, never defaulted.  Core-only imports (links as an executable). -/
 open Lean Gomacro.Drv
@@ -38,7 +38,8 @@ def handlers : List (String × Handler) := [
   ("c13.extract", c13Extract),
   ("c13.spec", c13Spec),
   ("c14.gen", c14Gen),
-  ("c14.perform", c14Perform)
+  ("c14.perform", c14Perform),
+  ("c06.gen", c06Gen)
 ]
 
 def handleLine (line : String) : String :=
